@@ -1,13 +1,21 @@
 package blockchain
 
 // C16 — the state root computed with the per-key leaf-hash cache equals the
-// root computed from scratch, over every history of set / remove / root /
-// clear events (explicit-state BFS, rebuild-from-scratch successors).
+// root computed from scratch, over every history of set / remove / overwrite-
+// in-place / root / clear events (explicit-state BFS, rebuild-from-scratch
+// successors).
+//
+// The harness drives only the public seam (ComputeStateRootWithCache,
+// PersistStateForBlock, BuildStateRootInputKeyValsAndRoot, ClearKeyLevelCache)
+// and never names a field or method of the cache: the canonical state key is
+// built by generic reflection over ChainState.keyLevelCache, so a refactor of
+// the cache's private representation keeps the check compiling and meaningful.
 
 import (
 	"bytes"
 	"fmt"
 	"os"
+	"reflect"
 	"sort"
 	"strings"
 	"testing"
@@ -20,9 +28,9 @@ import (
 )
 
 type c16Event struct {
-	Op string `json:"op"` // set | rm | root | clear
+	Op string `json:"op"` // set | rm | ow (overwrite the stored value's bytes in place) | root | clear
 	K  int    `json:"k,omitempty"`
-	Cl int    `json:"cl,omitempty"` // value class 1..4 (A,B,C,D)
+	Cl int    `json:"cl,omitempty"` // value class
 }
 
 func (e c16Event) String() string {
@@ -31,33 +39,55 @@ func (e c16Event) String() string {
 		return fmt.Sprintf("set(k%d,%s)", e.K, c16ClassName(e.Cl))
 	case "rm":
 		return fmt.Sprintf("rm(k%d)", e.K)
+	case "ow":
+		return fmt.Sprintf("overwrite(k%d)", e.K)
 	}
 	return e.Op + "()"
 }
 
 type c16Case struct {
-	Flavour string     `json:"flavour"` // bare | persist | build | wide (= bare entry point, 2 shallow keys, value alphabet W)
+	Flavour string     `json:"flavour"`
 	NKeys   int        `json:"nkeys"`
 	Hist    []c16Event `json:"hist"`
 }
 
-// Value classes. 1..4 = the standard alphabet (A,B,C,D). 11..20 = the "wide" alphabet W of values that collide
-// under plausible fingerprint shortcuts (zero padding, prefixes, length only):
-//   11 v = 3 bytes      12 v‖00        13 v‖00 00      14 empty        15 31x00      16 32x00
-//   17 w = 32 bytes     18 w‖00 (33 bytes, hashed leaf)
-//   19 / 20 two 12-byte values with equal first 8 bytes
+// Flavours (configuration = entry point + keys + value alphabet + cache bound):
+//
+//	bare    ComputeStateRootWithCache, 3/4 keys (k0/k1 differ in bit 247), classes A-D, bound 2
+//	wide    ComputeStateRootWithCache, 2 shallow keys, the 10-value alphabet W, bound 2
+//	alias   ComputeStateRootWithCache, 2 shallow keys, classes A-D + overwrite(k), bound 2
+//	pdelta  PersistStateForBlock on a state whose service storage values ARE the live value buffers
+//	        (the delta encoders pass them on uncopied), classes A, D + overwrite(k), no eviction
+//	persist PersistStateForBlock, harness keys as unmatched post-state key-vals, bound 16+1
+//	build   BuildStateRootInputKeyValsAndRoot, bound 16+1
+type c16Flavour struct {
+	classes   []int
+	overwrite bool
+	maxCache  int
+	site      string
+}
+
+var c16Flavours = map[string]c16Flavour{
+	"bare":    {[]int{1, 2, 3, 4}, false, 2, "blockchain.ChainState.ComputeStateRootWithCache"},
+	"wide":    {[]int{11, 12, 13, 14, 15, 16, 17, 18, 19, 20}, false, 2, "blockchain.ChainState.ComputeStateRootWithCache"},
+	"alias":   {[]int{1, 2, 3, 4}, true, 2, "blockchain.ChainState.ComputeStateRootWithCache"},
+	"pdelta":  {[]int{1, 4}, true, 64, "blockchain.ChainState.PersistStateForBlock"},
+	"persist": {[]int{1, 2, 3, 4}, false, 17, "blockchain.ChainState.PersistStateForBlock"},
+	"build":   {[]int{1, 2, 3, 4}, false, 17, "blockchain.ChainState.BuildStateRootInputKeyValsAndRoot"},
+}
+
+// Value classes. 1..4 = the standard alphabet (A: 5 bytes, B: other 5 bytes, C: 32 bytes, D: 33 bytes with
+// the same first 32). 11..20 = the "wide" alphabet W of values that collide under plausible fingerprint
+// shortcuts (zero padding, prefixes, length only):
+//
+//	11 v = 3 bytes      12 v‖00        13 v‖00 00      14 empty        15 31x00      16 32x00
+//	17 w = 32 bytes     18 w‖00 (33 bytes, hashed leaf)
+//	19 / 20 two 12-byte values with equal first 8 bytes
 func c16ClassName(cl int) string {
 	if cl >= 1 && cl <= 4 {
 		return string("-ABCD"[cl])
 	}
 	return map[int]string{11: "v", 12: "v0", 13: "v00", 14: "empty", 15: "0x31", 16: "0x32", 17: "w", 18: "w0", 19: "p1", 20: "p2"}[cl]
-}
-
-func c16Classes(flavour string) []int {
-	if flavour == "wide" {
-		return []int{11, 12, 13, 14, 15, 16, 17, 18, 19, 20}
-	}
-	return []int{1, 2, 3, 4}
 }
 
 // keys: k0/k1 differ only in the last bit (deep pair), k2 leaves at bit 9,
@@ -74,6 +104,7 @@ func c16Keys() []types.StateKey {
 	return []types.StateKey{base, flip(base, 247), flip(base, 9), flip(base, 0)}
 }
 
+// c16Value returns a FRESH buffer holding the class value.
 func c16Value(k, cl int) []byte {
 	mk := func(n int, seed byte) []byte {
 		v := make([]byte, n)
@@ -119,21 +150,35 @@ func c16Value(k, cl int) []byte {
 
 type c16World struct {
 	flavour string
+	fl      c16Flavour
 	nkeys   int
 	keys    []types.StateKey
 	cs      *ChainState
-	entries []int // value class per key, 0 = absent
+	vals    [][]byte // the LIVE value buffer per key (nil = absent); the same slice is handed to every root()
 	nroot   int
 	base    types.StateKeyVals // T(zero state) for the persist/build flavours
 }
 
 var c16RefMemo = map[string][32]byte{}
 
+const c16Service = types.ServiceID(7)
+
+func (w *c16World) present() int {
+	n := 0
+	for _, v := range w.vals {
+		if v != nil {
+			n++
+		}
+	}
+	return n
+}
+
+// mine: the harness entries; Value shares the backing array of the live buffer.
 func (w *c16World) mine() types.StateKeyVals {
 	var kvs types.StateKeyVals
-	for k, cl := range w.entries {
-		if cl != 0 {
-			kvs = append(kvs, types.StateKeyVal{Key: w.keys[k], Value: c16Value(k, cl)})
+	for k, v := range w.vals {
+		if v != nil {
+			kvs = append(kvs, types.StateKeyVal{Key: w.keys[k], Value: types.ByteSequence(v)})
 		}
 	}
 	return kvs
@@ -146,51 +191,166 @@ func c16Sorted(kvs types.StateKeyVals) types.StateKeyVals {
 	return out
 }
 
-func (w *c16World) cacheCanon() string {
-	type ent struct {
-		k types.StateKey
-		e leafCacheEntry
+// ---- generic canonical rendering of the cache object (no field or method names) ----
+
+type c16Renderer struct {
+	live    map[uintptr]string // data pointer of a live value buffer -> "k<i>"
+	entries int                // size of the largest map met (reported as the cache size)
+}
+
+func (cr *c16Renderer) render(v reflect.Value, sb *strings.Builder, depth int) {
+	if depth > 12 {
+		sb.WriteString("…")
+		return
 	}
-	var es []ent
-	for k, e := range w.cs.keyLevelCache.entries {
-		es = append(es, ent{k, e})
+	switch v.Kind() {
+	case reflect.Invalid:
+		sb.WriteString("nil")
+	case reflect.Ptr, reflect.Interface:
+		if v.IsNil() {
+			sb.WriteString("nil")
+			return
+		}
+		cr.render(v.Elem(), sb, depth+1)
+	case reflect.Struct:
+		sb.WriteString("{")
+		for i := 0; i < v.NumField(); i++ {
+			cr.render(v.Field(i), sb, depth+1)
+			sb.WriteString(",")
+		}
+		sb.WriteString("}")
+	case reflect.Map:
+		if v.Len() > cr.entries {
+			cr.entries = v.Len()
+		}
+		var items []string
+		it := v.MapRange()
+		for it.Next() {
+			var e strings.Builder
+			cr.render(it.Key(), &e, depth+1)
+			e.WriteString("=>")
+			cr.render(it.Value(), &e, depth+1)
+			items = append(items, e.String())
+		}
+		sort.Strings(items)
+		sb.WriteString("map[" + strings.Join(items, ";") + "]")
+	case reflect.Slice, reflect.Array:
+		if v.Kind() == reflect.Slice && v.IsNil() {
+			sb.WriteString("nil")
+			return
+		}
+		if v.Type().Elem().Kind() == reflect.Uint8 {
+			const hexd = "0123456789abcdef"
+			for i := 0; i < v.Len(); i++ {
+				b := byte(v.Index(i).Uint())
+				sb.WriteByte(hexd[b>>4])
+				sb.WriteByte(hexd[b&15])
+			}
+			if v.Kind() == reflect.Slice && v.Len() > 0 {
+				// aliasing is part of the state: does the cache hold a live value buffer itself?
+				if name, ok := cr.live[v.Pointer()]; ok {
+					sb.WriteString("@" + name)
+				}
+			}
+			sb.WriteString("/")
+			return
+		}
+		sb.WriteString("[")
+		for i := 0; i < v.Len(); i++ {
+			cr.render(v.Index(i), sb, depth+1)
+			sb.WriteString(",")
+		}
+		sb.WriteString("]")
+	case reflect.Bool:
+		fmt.Fprint(sb, v.Bool())
+	case reflect.Int, reflect.Int8, reflect.Int16, reflect.Int32, reflect.Int64:
+		fmt.Fprint(sb, v.Int())
+	case reflect.Uint, reflect.Uint8, reflect.Uint16, reflect.Uint32, reflect.Uint64, reflect.Uintptr:
+		fmt.Fprint(sb, v.Uint())
+	case reflect.String:
+		fmt.Fprintf(sb, "%q", v.String())
+	case reflect.Float32, reflect.Float64:
+		fmt.Fprint(sb, v.Float())
+	default: // func, chan, unsafe pointer: identity is not state we can compare
+		sb.WriteString(v.Kind().String())
 	}
-	sort.Slice(es, func(i, j int) bool { return bytes.Compare(es[i].k[:], es[j].k[:]) < 0 })
+}
+
+// c16CacheField finds the key-level cache inside the chain state without relying on more than its field
+// name; if the field is renamed, any field whose type name mentions both "ache" and "ey" is taken.
+func c16CacheField(cs *ChainState) (reflect.Value, bool) {
+	sv := reflect.ValueOf(cs).Elem()
+	if f := sv.FieldByName("keyLevelCache"); f.IsValid() {
+		return f, true
+	}
+	for i := 0; i < sv.NumField(); i++ {
+		tn := sv.Type().Field(i).Type.String()
+		if strings.Contains(tn, "ache") && strings.Contains(tn, "ey") {
+			return sv.Field(i), true
+		}
+	}
+	return reflect.Value{}, false
+}
+
+// cacheCanon returns the rendered cache, its size, and whether it could be rendered at all.
+func (w *c16World) cacheCanon() (string, int, bool) {
+	f, ok := c16CacheField(w.cs)
+	if !ok {
+		return "", 0, false
+	}
+	cr := &c16Renderer{live: map[uintptr]string{}}
+	for k, v := range w.vals {
+		if len(v) > 0 {
+			cr.live[reflect.ValueOf(v).Pointer()] = fmt.Sprintf("k%d", k)
+		}
+	}
 	var sb strings.Builder
-	for _, e := range es {
-		fmt.Fprintf(&sb, "%x:%x:%x;", e.k[:], e.e.valueHash[:], e.e.leafHash[:])
+	cr.render(f, &sb, 0)
+	return sb.String(), cr.entries, true
+}
+
+func (w *c16World) entriesCanon() string {
+	var sb strings.Builder
+	for _, v := range w.vals {
+		if v == nil {
+			sb.WriteString("-|")
+		} else {
+			fmt.Fprintf(&sb, "%x|", v)
+		}
 	}
 	return sb.String()
 }
 
-func (w *c16World) canon() string {
-	return fmt.Sprint(w.entries) + "|" + w.cacheCanon()
+// canon = entry map (actual bytes) + generic dump of the cache. If the cache cannot be found, the history
+// itself is the state (no dedup): ok = false.
+func (w *c16World) canon() (string, bool) {
+	cc, _, ok := w.cacheCanon()
+	return w.entriesCanon() + "#" + cc, ok
 }
 
-// c16MaxCache: bare: 2 (three harness keys never fit). Full-state flavours: the 16 state components + 1, so that
-// with two harness keys the capacity clear happens in the middle of a root computation.
 func c16MaxCache(flavour string) int {
 	if v := os.Getenv("C16_MAXCACHE"); v != "" { // development knob
 		n := 0
 		fmt.Sscanf(v, "%d", &n)
 		return n
 	}
-	if flavour == "bare" || flavour == "wide" {
-		return 2
-	}
-	return 17
+	return c16Flavours[flavour].maxCache
 }
 
 // c16New resets every process-global the cache path reads and builds a fresh chain state.
 func c16New(flavour string, nkeys int) *c16World {
+	fl, ok := c16Flavours[flavour]
+	if !ok {
+		panic("c16: unknown flavour " + flavour)
+	}
 	types.MaxKeyLevelCacheSize = c16MaxCache(flavour)
 	ResetInstance()
-	w := &c16World{flavour: flavour, nkeys: nkeys, keys: c16Keys()[:nkeys], cs: GetInstance(), entries: make([]int, nkeys)}
-	if flavour == "wide" {
+	w := &c16World{flavour: flavour, fl: fl, nkeys: nkeys, keys: c16Keys()[:nkeys], cs: GetInstance(), vals: make([][]byte, nkeys)}
+	switch flavour {
+	case "wide", "alias":
 		all := c16Keys()
 		w.keys = []types.StateKey{all[0], all[2], all[3]}[:nkeys] // shallow: the trie shape is irrelevant to the cache
-	}
-	if flavour != "bare" && flavour != "wide" {
+	case "persist", "build":
 		b, err := m.StateEncoder(types.State{})
 		if err != nil {
 			panic("c16: StateEncoder(zero state): " + err.Error())
@@ -204,39 +364,54 @@ type c16RootResult struct {
 	cached, uncached types.StateRoot
 	want             [32]byte
 	full             types.StateKeyVals
-	hits, misses     int
-	evicted          bool
+	before, after    int // cache size around the call (from the generic dump)
+	changed          bool
 	err              error
+}
+
+func (w *c16World) headerHash() (hh types.HeaderHash) {
+	hh[0], hh[1], hh[2], hh[3] = 0xC1, 0x6C, byte(w.nroot), byte(w.nroot>>8)
+	return
+}
+
+// deltaState: one service whose storage values ARE the live value buffers.
+func (w *c16World) deltaState() types.State {
+	acct := types.ServiceAccount{
+		ServiceInfo:    types.ServiceInfo{Balance: 1000, Items: 4, Bytes: 100}, // constant: keeps the service-info entry out of the state space
+		StorageDict:    types.Storage{},
+		PreimageLookup: types.PreimagesMapEntry{},
+		LookupDict:     types.LookupMetaMapEntry{},
+	}
+	for k, v := range w.vals {
+		if v != nil {
+			acct.StorageDict[fmt.Sprintf("c16-storage-%d", k)] = types.ByteSequence(v)
+		}
+	}
+	return types.State{Delta: types.ServiceAccountState{c16Service: acct}}
 }
 
 // root performs one root() event with the flavour's real entry point.
 func (w *c16World) root(check bool) (res c16RootResult) {
 	mine := c16Sorted(w.mine())
 	full := mine
-	if w.flavour != "bare" && w.flavour != "wide" {
-		full = c16Sorted(append(append(types.StateKeyVals{}, w.base...), mine...))
-	}
-	before := w.cs.keyLevelCache.Len()
-	for _, kv := range full {
-		if !check {
-			break // prefix replay: only the real call matters
-		}
-		if _, _, ok := w.cs.keyLevelCache.GetLeafHash(kv.Key, kv.Value); ok {
-			res.hits++
-		} else {
-			res.misses++
-		}
+	var cbefore string
+	if check {
+		cbefore, res.before, _ = w.cacheCanon()
 	}
 	w.nroot++
 	switch w.flavour {
-	case "bare", "wide":
+	case "bare", "wide", "alias":
 		res.cached = w.cs.ComputeStateRootWithCache(mine)
-	case "persist":
-		var hh types.HeaderHash
-		hh[0], hh[1], hh[2] = 0xC1, 0x6C, byte(w.nroot)
-		hh[3] = byte(w.nroot >> 8)
-		w.cs.SetPostStateUnmatchedKeyVals(mine)
-		if res.err = w.cs.PersistStateForBlock(hh, types.State{}); res.err != nil {
+	case "persist", "pdelta":
+		hh := w.headerHash()
+		state := types.State{}
+		if w.flavour == "pdelta" {
+			state = w.deltaState()
+			w.cs.SetPostStateUnmatchedKeyVals(nil)
+		} else {
+			w.cs.SetPostStateUnmatchedKeyVals(mine)
+		}
+		if res.err = w.cs.PersistStateForBlock(hh, state); res.err != nil {
 			return
 		}
 		if res.cached, res.err = w.cs.GetStateRootByBlockHash(hh); res.err != nil {
@@ -278,22 +453,45 @@ func (w *c16World) root(check bool) (res c16RootResult) {
 		c16RefMemo[mk] = want
 	}
 	res.want = want
-	res.evicted = w.cs.keyLevelCache.Len() < before+res.misses && res.misses > 0
+	var cafter string
+	cafter, res.after, _ = w.cacheCanon()
+	res.changed = cafter != cbefore
 	return
+}
+
+// expectedFull: the entry set the full-state flavours must merklize.
+func (w *c16World) expectedFull() (types.StateKeyVals, string) {
+	switch w.flavour {
+	case "persist", "build":
+		return c16Sorted(append(append(types.StateKeyVals{}, w.base...), w.mine()...)), "T(zero state) + harness keys"
+	case "pdelta":
+		kvs, err := m.StateEncoder(w.deltaState())
+		if err != nil {
+			return nil, ""
+		}
+		return c16Sorted(kvs), "T(state with the service storage)"
+	}
+	return nil, ""
 }
 
 // apply executes one event; check says whether the oracle is evaluated (and reported) for it.
 func (w *c16World) apply(r *vlib.Run, e c16Event, check bool, c *c16Case) {
 	switch e.Op {
 	case "set":
-		w.entries[e.K] = e.Cl
+		w.vals[e.K] = c16Value(e.K, e.Cl) // a fresh buffer
 	case "rm":
-		w.entries[e.K] = 0
+		w.vals[e.K] = nil
+	case "ow":
+		// the stored value's bytes change IN PLACE: same slice header, same backing array, same length
+		if v := w.vals[e.K]; len(v) > 0 {
+			v[len(v)/2] ^= 0xFF
+		}
 	case "clear":
 		w.cs.ClearKeyLevelCache()
 		if check {
 			r.Transition() // no oracle on clear itself: the property speaks about roots only
-			r.Class(fmt.Sprintf("clear emptied=%v", w.cs.keyLevelCache.Len() == 0))
+			_, n, _ := w.cacheCanon()
+			r.Class(fmt.Sprintf("clear emptied=%v", n == 0))
 		}
 	case "root":
 		var res c16RootResult
@@ -304,8 +502,8 @@ func (w *c16World) apply(r *vlib.Run, e c16Event, check bool, c *c16Case) {
 		r.Transition()
 		r.Eval()
 		r.Space(1)
-		key := fmt.Sprintf("flavour=%s;hits>0=%v;misses>0=%v;evicted=%v", w.flavour, res.hits > 0, res.misses > 0, res.evicted)
-		site0 := map[string]string{"bare": "blockchain.ChainState.ComputeStateRootWithCache", "wide": "blockchain.ChainState.ComputeStateRootWithCache", "persist": "blockchain.ChainState.PersistStateForBlock", "build": "blockchain.ChainState.BuildStateRootInputKeyValsAndRoot"}[w.flavour]
+		key := fmt.Sprintf("flavour=%s;cache-before=%d;cache-changed=%v", w.flavour, min(res.before, 3), res.changed)
+		site0 := w.fl.site
 		if panicked {
 			r.Violation("blockchain."+site, "go-panic", "flavour="+w.flavour, fmt.Sprintf("history %v: %s", c.Hist, msg), c)
 			return
@@ -320,22 +518,20 @@ func (w *c16World) apply(r *vlib.Run, e c16Event, check bool, c *c16Case) {
 				nh++
 			}
 		}
-		r.Class(fmt.Sprintf("root %s entries=%d hashed=%d hits=%d misses=%d evicted=%v", w.flavour, len(w.mine()), nh, min(res.hits, 3), min(res.misses, 3), res.evicted))
+		r.Class(fmt.Sprintf("root %s entries=%d hashed=%d cache-before=%d cache-after=%d cache-changed=%v", w.flavour, w.present(), min(nh, 3), min(res.before, 3), min(res.after, 3), res.changed))
 		if res.cached != res.uncached {
-			r.Violation(site0, "cached-root-mismatch", key, fmt.Sprintf("history %v: cached root %x, from scratch %x (entries %v)", c.Hist, res.cached[:], res.uncached[:], w.entries), c)
+			r.Violation(site0, "cached-root-mismatch", key, fmt.Sprintf("history %v: cached root %x, from scratch %x (entries %s)", c.Hist, res.cached[:], res.uncached[:], w.entriesCanon()), c)
 		}
 		if [32]byte(res.uncached) != res.want {
 			r.Violation("merklization.MerklizationSerializedState", "root-mismatch", "flavour="+w.flavour, fmt.Sprintf("history %v: from-scratch root %x, R-trie %x", c.Hist, res.uncached[:], res.want[:]), c)
 		}
-		if w.flavour != "bare" && w.flavour != "wide" {
-			// the merkle input must be exactly base ∪ mine
-			exp := c16Sorted(append(append(types.StateKeyVals{}, w.base...), w.mine()...))
+		if exp, what := w.expectedFull(); exp != nil {
 			same := len(exp) == len(res.full)
 			for i := 0; same && i < len(exp); i++ {
 				same = exp[i].Key == res.full[i].Key && bytes.Equal(exp[i].Value, res.full[i].Value)
 			}
 			if !same {
-				r.Violation(site0, "wrong-entry-set", "flavour="+w.flavour, fmt.Sprintf("history %v: merkle input has %d entries, expected %d (T(zero state) + harness keys)", c.Hist, len(res.full), len(exp)), c)
+				r.Violation(site0, "wrong-entry-set", "flavour="+w.flavour, fmt.Sprintf("history %v: merkle input has %d entries, expected %d (%s)", c.Hist, len(res.full), len(exp), what), c)
 			}
 		}
 	}
@@ -350,21 +546,32 @@ func c16Rebuild(r *vlib.Run, c *c16Case, checkFrom int) *c16World {
 }
 
 func c16Alphabet(flavour string, nkeys int) []c16Event {
+	fl := c16Flavours[flavour]
 	var evs []c16Event
 	for k := 0; k < nkeys; k++ {
-		for _, cl := range c16Classes(flavour) {
+		for _, cl := range fl.classes {
 			evs = append(evs, c16Event{Op: "set", K: k, Cl: cl})
 		}
 		evs = append(evs, c16Event{Op: "rm", K: k})
+		if fl.overwrite {
+			evs = append(evs, c16Event{Op: "ow", K: k})
+		}
 	}
 	return append(evs, c16Event{Op: "root"}, c16Event{Op: "clear"})
 }
+
+// c16NoDedupDepth bounds the search when the cache cannot be introspected (history = state).
+const c16NoDedupDepth = 4
 
 func c16BFS(r *vlib.Run, flavour string, nkeys int, idx *uint64) (states int, depth int) {
 	alphabet := c16Alphabet(flavour, nkeys)
 	seen := map[string]bool{}
 	w0 := c16New(flavour, nkeys)
-	seen[w0.canon()] = true
+	k0, dedup := w0.canon()
+	seen[k0] = true
+	if !dedup {
+		r.Cap(fmt.Sprintf("cache object not found by reflection: history = state, no dedup, depth <= %d", c16NoDedupDepth))
+	}
 	frontier := [][]c16Event{{}}
 	states = 1
 	for len(frontier) > 0 {
@@ -380,12 +587,15 @@ func c16BFS(r *vlib.Run, flavour string, nkeys int, idx *uint64) (states int, de
 					checkFrom = len(hist) - 1
 				}
 				w := c16Rebuild(r, c, checkFrom)
-				key := w.canon()
+				key, _ := w.canon()
+				if !dedup {
+					key = fmt.Sprint(hist)
+				}
 				if mine {
 					r.Trace()
 					// self-check: a second rebuild of the same history gives the identical canonical state
 					if (*idx/uint64(r.NShards))%64 == 0 {
-						if k2 := c16Rebuild(r, c, len(hist)).canon(); k2 != key {
+						if k2, _ := c16Rebuild(r, c, len(hist)).canon(); dedup && k2 != key {
 							r.T.Fatalf("C16 harness nondeterminism: two rebuilds of %v differ", hist)
 						}
 					}
@@ -393,9 +603,12 @@ func c16BFS(r *vlib.Run, flavour string, nkeys int, idx *uint64) (states int, de
 				if !seen[key] {
 					seen[key] = true
 					states++
-					next = append(next, hist)
-					if mine && r.WantSample() && len(hist) >= 5 && e.Op == "root" {
-						r.Sample(map[string]interface{}{"flavour": flavour, "history": fmt.Sprint(hist), "entries": w.entries, "cache_entries": w.cs.keyLevelCache.Len()})
+					if dedup || len(hist) < c16NoDedupDepth {
+						next = append(next, hist)
+					}
+					if mine && r.WantSample() && len(hist) >= 4 && e.Op == "root" {
+						_, n, _ := w.cacheCanon()
+						r.Sample(map[string]interface{}{"flavour": flavour, "history": fmt.Sprint(hist), "entries": w.entriesCanon(), "cache_entries": n})
 					}
 				}
 			}
@@ -413,8 +626,11 @@ func TestVerif_C16(t *testing.T) {
 	r := vlib.Start(t, "C16")
 	defer r.Finish()
 	logger.SetLevel("ERROR") // ResetInstance logs one DEBUG line per rebuild
-	saved := types.MaxKeyLevelCacheSize
-	defer func() { types.MaxKeyLevelCacheSize = saved; ResetInstance() }()
+	saved, savedEpoch := types.MaxKeyLevelCacheSize, types.EpochLength
+	// newChainState() pre-allocates 2*EpochLength empty blocks per instance, which dominates the cost of a
+	// rebuild; the cache path reads no protocol parameter except MaxKeyLevelCacheSize (set per rebuild).
+	types.EpochLength = 1
+	defer func() { types.MaxKeyLevelCacheSize, types.EpochLength = saved, savedEpoch; ResetInstance() }()
 
 	var rc c16Case
 	if r.IsReplay(&rc) {
@@ -425,7 +641,7 @@ func TestVerif_C16(t *testing.T) {
 		flavour string
 		nkeys   int
 	}
-	cfgs := []cfg{{"bare", 3}, {"wide", 2}}
+	cfgs := []cfg{{"bare", 3}, {"wide", 2}, {"alias", 2}, {"pdelta", 2}}
 	if r.Thorough() {
 		cfgs = append(cfgs, cfg{"bare", 4}, cfg{"persist", 2}, cfg{"build", 2})
 	}
